@@ -382,6 +382,8 @@ type proxyPair struct {
 	srv    *proxy.Server
 	client *proxy.Client
 	port   int
+	// defaultLimit is the MaxBlobSize a client has when nobody overrides it
+	defaultLimit uint64
 }
 
 var (
@@ -435,7 +437,7 @@ func getPair() *proxyPair {
 				continue
 			}
 			logging.SetAllLoggers(logging.LevelFatal)
-			pair = &proxyPair{sw: sw, srv: srv, client: cl, port: port}
+			pair = &proxyPair{sw: sw, srv: srv, client: cl, port: port, defaultLimit: cl.DA.MaxBlobSize}
 			return
 		}
 		panic(fmt.Sprintf("c16 harness: cannot start a JSON-RPC server/client pair on loopback: %v", lastErr))
